@@ -1,7 +1,7 @@
 """C17 — wake-ups/signals not lost (structural part), tty restored on every exit path of dispose."""
 import re
 from ..mir import call_matches, callee_name, op_local, op_const_int, place_str
-from ..flow import resolve_place, arg_place, origins
+from ..flow import resolve_place, arg_place, origins, expr
 
 
 CLAIM = {
@@ -413,10 +413,25 @@ def run(ctx):
                               "a path through one loop iteration returns to the loop head without evaluating the %s handler (blocks %s): events can starve" % (nm, wit),
                               sites=["%s:%d" % (poll.file, line)])
 
+    # ---------- (e2) output first: pending bytes are written before a signal can end the iteration with Err(Quit) ----------------------
+    ctx.rule("WRITE-FIRST", "poll: within one iteration the tty-writable handler (consume_with) is evaluated before the signal handler, whose TERM/INT/QUIT arm "
+                            "returns Err(Quit) — dispose's closing sequence reaches the tty even when a termination signal is already pending", floor=1)
+    wr = [(bb, line) for bb, nm, line in tests if nm == "is_writable"]
+    sig = [(bb, t) for bb, t in poll.calls() if call_matches(t, r"^unix::PollEvent::is_readable$") and "SignalDelivery::get_read" in expr(poll, t["args"][0])]
+    if len(wr) != 1 or len(sig) != 1 or not cw:
+        ctx.anchor("WRITE-FIRST", "poll/handlers", "writable test / signal test / consume_with not recognised")
+    else:
+        wbb, sbb = wr[0][0], sig[0][0]
+        okw = cfg.dominates(wbb, sbb) and cfg.dominates(wbb, cw[0][0]) and not cfg.dominates(sbb, cw[0][0])
+        ctx.instance("WRITE-FIRST", {"writable_test_block": wbb, "signal_test_block": sbb, "consume_with_block": cw[0][0], "output_before_signals": okw})
+        if not okw:
+            ctx.violation("WRITE-FIRST", poll.path, "signals-before-output", "the signal handler runs before pending output is written in a poll iteration: a pending SIGTERM/SIGINT/SIGQUIT makes "
+                          "poll return Err(Quit) first, so the closing sequence queued by dispose() never reaches the tty", sites=["%s:%d" % (poll.file, sig[0][1]["line"])])
+
     # ---------- (f) arrival order of the event queue -------------------------------------------------------------
     ctx.rule("EVENT-ORDER", "UnixTerminal.events_queue: poll appends at the back and hands out the front; a body that takes events through poll and gives them "
                             "back re-queues them at the front, oldest last (push_front over the reversed FIFO collection)", floor=5)
-    from ..flow import expr
+
     n_ops = 0
     for b in prog.bodies:
         if not (b.file or "").endswith("unix.rs"):
@@ -454,6 +469,31 @@ def run(ctx):
                               % (b.path, op), sites=["%s:%d" % (b.file, t["line"])])
     if n_ops == 0:
         ctx.anchor("EVENT-ORDER", "events_queue")
+    # a body that sets events aside must give them back on every Ok return; an Ok return that skips the give-back is tolerated only
+    # behind poll(None), which never returns Ok(None) (its loop ends only when the event queue is non-empty)
+    from ..flow import ok_return_blocks
+    for b in prog.bodies:
+        if not (b.file or "").endswith("unix.rs") or b.path == poll.path or (b.closure_root or "") == poll.path:
+            continue
+        gb = [bb for bb, t in b.calls() if re.search(r"VecDeque::<T, A>::push_front$|VecDeque<T, A> as std::iter::Extend", callee_name(t) or "") and t["args"]
+              and re.search(r"\.events_queue$", arg_place(b, t, 0) or "")]
+        polls = [(bb, t) for bb, t in b.calls() if (callee_name(t) or "") == poll.path]
+        if not gb or not polls:
+            continue
+        bcfg = b.cfg()
+        oks = ok_return_blocks(b)
+        skipping = []
+        for pb, pt in polls:
+            okp, wit = bcfg.must_pass(gb, start=pb, exits=oks)
+            if not okp:
+                skipping.append((pb, pt, wit))
+        for pb, pt, wit in skipping:
+            targ = expr(b, pt["args"][1]) if len(pt["args"]) > 1 else "?"
+            blocking = targ in ("Option::None()", "Option::None")
+            ctx.instance("EVENT-ORDER", {"fn": b.path, "ok_return_without_give_back_after_poll": True, "poll_timeout": targ, "unreachable_because_blocking": blocking, "ok": blocking})
+            if not blocking:
+                ctx.violation("EVENT-ORDER", b.path, "set-aside-lost", "%s can return Ok without giving the events it set aside back to the queue (path %s) and polls with timeout %s, so that "
+                              "path is reachable: a wake-up, key or resize that arrived meanwhile is lost" % (b.path, wit, targ), sites=["%s:%d" % (b.file, pt["line"])])
 
 
 def loop_heads_reaching(cfg, start):
